@@ -395,6 +395,9 @@ func init() {
 			r.Floor("literal_pairs", 40)
 			res.Merge(r)
 			res.Merge(stride.RunStepBound(def, core.Pkgs("./mat")))
+			wc := stride.RunWholeCopy(def, core.Pkgs("./mat"))
+			wc.Floor("copies_out_of_a_raw_data_slice", 8)
+			res.Merge(wc)
 			res.Merge(loopidx.Run(def, core.Pkgs("./mat")))
 			res.Merge(flagx.Run(def, core.Pkgs("./mat")))
 			bc := flagx.RunBandCol(def, core.Pkgs("./mat", "./blas/gonum", "./lapack/gonum"))
@@ -975,6 +978,8 @@ func dump(argv []string) {
 		res = decode.RunSquare(def, argv[1:]...)
 	case "retoffset":
 		res = flagx.RunRetOffset(def, core.Pkgs(argv[1:]...))
+	case "wholecopy":
+		res = stride.RunWholeCopy(def, core.Pkgs(argv[1:]...))
 	case "workquery":
 		res = flagx.RunWorkQuery(def, core.Pkgs(argv[1:]...))
 	case "betascale":
